@@ -76,6 +76,13 @@ def caps(res, df, params, date):
             pv = sv["beitr_satz"]["ges_pflegev"]
             pv_full = 2.0 * float(pv["standard"]) + float(pv.get("zusatz_kinderlos", 0.0))
             yield "pflegev<=2*full_rate*ceiling", c["ges_pflegev_beitr_arbeitnehmer_m"], 2.0 * pv_full * ceil_kv
+    if has("_arbeitsl_geld_2_alleinerz_mehrbedarf_m"):
+        # "max gibt den Maximalanteil fuer den Mehrbedarf fuer Alleinerziehende" (share of the standard rate)
+        yield "alleinerz_mehrbedarf<=max_share", c["_arbeitsl_geld_2_alleinerz_mehrbedarf_m"], float(params["arbeitsl_geld_2"]["mehrbedarf_anteil"]["max"])
+    if has("eink_st_altersfreib_y"):
+        am = params["eink_st_abzuege"].get("altersentlastungsbetrag_max")
+        if am is not None:
+            yield "altersentlastungsbetrag<=max", c["eink_st_altersfreib_y"], (max(am.values()) if isinstance(am, dict) else float(am))
     if has("elterngeld_m", "elterngeld_geschwisterbonus_m", "elterngeld_mehrlingsbonus_m", "_elterngeld_anz_mehrlinge_fg"):
         eg = params["elterngeld"]
         # caps on the bonuses themselves, from named parameters: the sibling bonus is 10 % of an
